@@ -1,8 +1,9 @@
 """C17 - defining a class or decorating a function never changes another's contracts."""
 import metaprop
 import genmeta
-from metaprop import run_impl, model_view  # noqa: F401
 from props import C04 as _C04
+import functools
+import common
 
 DESCRIPTION = ("Lean: Props/C17.lean (frame property of the heap model: defining a class or decorating a function writes only "
                "to cells it allocated; the invariant decorator writes only to the decorated class's own lists). Oracle: after "
@@ -16,8 +17,18 @@ ASSUMPTIONS = ["plain (non-DBC) classes share invariant lists with their decorat
                "each function object appears in one class namespace"]
 
 
+DERIVED_KINDS = ["partial_kw", "partial_pos", "partial_of_partial", "lambda", "callable_object", "partial_of_method",
+                 "partial_of_static", "partialmethod_like"]
+TARGETS = ["function", "method", "staticmethod", "async_function"]
+DECOS = ["require", "ensure", "snapshot+ensure"]
+
+
 def cases(tier, rng):
     thorough = tier == "thorough"
+    for kind in DERIVED_KINDS:
+        for target in TARGETS:
+            for deco in DECOS:
+                yield "derived-callable", {"dom": "derived", "kind": kind, "target": target, "deco": deco}
     for c in genmeta.shapes():
         yield "shape", c
     for _ in range(6000 if thorough else 700):
@@ -29,10 +40,131 @@ def search_cases(rng, hint, n):
         yield "search", genmeta.random_history(rng, max_classes=6, p_inv=0.7)
 
 
-project = _C04.project
+def driver_inputs(case):
+    return [] if case.get("dom") == "derived" else [case]
 
 
-def spec(case, mo, io):
+def run_impl(case):
+    if case.get("dom") == "derived":
+        return impl_derived(case)
+    return metaprop.run_impl(case)
+
+
+def model_view(case, mos):
+    if case.get("dom") == "derived":
+        return {"derived": "unchanged"}
+    return metaprop.model_view(case, mos[0])
+
+
+def project(case, obs):
+    if case.get("dom") == "derived":
+        return "untied"
+    return _C04.project(case, obs)
+
+
+def impl_derived(case):
+    """decorate a callable derived from an already contracted one; observe the original before and after"""
+    icontract = common.assert_repo_import()
+    import icontract._checkers as ck
+    target = case["target"]
+    if target == "function":
+        @icontract.require(lambda x: x > 0)
+        @icontract.snapshot(lambda x: x, name="x0")
+        @icontract.ensure(lambda result, OLD: result < 100 and OLD.x0 >= 0)
+        def f(x, y=1):
+            return x * y
+        orig, call = f, (lambda x: f(x))
+    elif target == "async_function":
+        @icontract.require(lambda x: x > 0)
+        @icontract.ensure(lambda result: result < 100)
+        async def f(x, y=1):
+            return x * y
+
+        def call(x):
+            co = f(x)
+            try:
+                co.send(None)
+            except StopIteration as e:
+                return e.value
+        orig = f
+    else:
+        class A(icontract.DBC):
+            @icontract.require(lambda x: x > 0)
+            @icontract.ensure(lambda result: result < 100)
+            def m(self, x, y=1):
+                return x * y
+
+            @staticmethod
+            @icontract.require(lambda x: x > 0)
+            @icontract.ensure(lambda result: result < 100)
+            def s(x, y=1):
+                return x * y
+        a = A()
+        if target == "method":
+            orig, call = A.m, (lambda x: a.m(x))
+        else:
+            orig, call = A.__dict__["s"].__func__, (lambda x: A.s(x))
+
+    def observe():
+        c = ck.find_checker(orig)
+        lists = [[id(k) for k in g] for g in c.__preconditions__], [id(k) for k in c.__postconditions__], \
+            [id(k) for k in c.__postcondition_snapshots__]
+        verdicts = []
+        for x in (-5, 0, 1, 5, 20, 50, 99, 100, 500):
+            try:
+                verdicts.append(["ret", call(x)])
+            except icontract.ViolationError:
+                verdicts.append(["violation"])
+            except BaseException as e:  # noqa: B902
+                verdicts.append(["raise", type(e).__name__])
+        return [lists, verdicts]
+
+    before = observe()
+    kind = case["kind"]
+    base = orig if target != "method" else functools.partial(orig, a)
+    if kind == "partial_kw":
+        derived = functools.partial(base, y=2)
+    elif kind == "partial_pos":
+        derived = functools.partial(base, 3)
+    elif kind == "partial_of_partial":
+        derived = functools.partial(functools.partial(base, y=2))
+    elif kind == "lambda":
+        derived = lambda x: base(x)  # noqa: E731
+    elif kind == "callable_object":
+        class Wrapper:
+            def __init__(self, g):
+                self.func = g          # same attribute name as functools.partial
+
+            def __call__(self, x):
+                return self.func(x)
+        derived = Wrapper(base)
+    elif kind == "partial_of_method":
+        derived = functools.partial(orig, a) if target == "method" else functools.partial(base)
+    elif kind == "partial_of_static":
+        derived = functools.partial(base, y=1)
+    else:
+        derived = functools.partial(base)
+    try:
+        if case["deco"] == "require":
+            new = icontract.require(lambda: False)(derived)
+        elif case["deco"] == "ensure":
+            new = icontract.ensure(lambda result: False)(derived)
+        else:
+            new = icontract.snapshot(lambda: 1, name="extra")(icontract.ensure(lambda result: False)(derived))
+        deco_out = ["ok", new is not derived]
+    except BaseException as e:  # noqa: B902
+        deco_out = ["raise", type(e).__name__, str(e)[:120]]
+    after = observe()
+    return {"before": before, "after": after, "deco": deco_out}
+
+
+def spec(case, mos, io):
+    if case.get("dom") == "derived":
+        if io["before"] != io["after"]:
+            return ["decorating a %s of the contracted %s with %s changed the original's contracts / verdicts: %s -> %s"
+                    % (case["kind"], case["target"], case["deco"], io["before"], io["after"])]
+        return []
+    mo = mos[0]
     fails = []
     ops = case["ops"]
     prev = []
@@ -56,7 +188,10 @@ def spec(case, mo, io):
     return fails
 
 
-def classify(case, mo, io, fails):
+def classify(case, mos, io, fails):
+    if case.get("dom") == "derived":
+        return "unclassified"
+    mo = mos[0]
     # every failing step decorates a class that, at that moment, has no invariant lists of its own but
     # reaches a base's lists through the MRO (the base got its first invariant after the subclass was created)
     import re
@@ -73,10 +208,17 @@ def classify(case, mo, io, fails):
     return "unclassified"
 
 
-def nontrivial_key(case, mo):
+def nontrivial_key(case, mos):
+    if case.get("dom") == "derived":
+        return (case["kind"], case["target"], case["deco"])
+    mo = mos[0]
     if sum(1 for o in case["ops"] if o["op"] == "class") < 2:
         return None
     return _C04.nontrivial_key(case, mo)
 
 
-stats = _C04.stats
+def stats(case, mos, io, dist):
+    if case.get("dom") == "derived":
+        dist["derived:" + case["kind"]] += 1
+        return
+    _C04.stats(case, mos[0], io, dist)
